@@ -172,7 +172,7 @@ func randUniprotDoc(r *rand.Rand, n int, small bool) ([]upEntry, string) {
 			sb.WriteString("  <name>" + spell(nm) + endTag("name") + "\n")
 		}
 		if !small || r.Intn(2) == 0 {
-			sb.WriteString("  <protein>\n    <recommendedName>\n      <fullName" + upEvidence(r) + ">Protein " + gen.RandWordAlnum(r, 6) + " &amp; co</fullName>\n    </recommendedName>\n  </protein>\n")
+			sb.WriteString("  <protein>\n    <recommendedName>\n      <fullName" + upEvidence(r) + ">Protein " + gen.RandWordAlnum(r, 6) + []string{" &amp; co", " &amp; co", " A&lt;B&gt;3", " (&gt;90%) &amp; more"}[r.Intn(4)] + "</fullName>\n    </recommendedName>\n  </protein>\n")
 		}
 		if !small {
 			sb.WriteString("  <organism>\n    <name type=\"scientific\">" + gen.RandWordAlnum(r, 8) + " virus</name>\n    <dbReference type=\"NCBI Taxonomy\" id=\"" + fmt.Sprint(1000+r.Intn(9000)) + "\"" + upEvidence(r) + "/>\n  </organism>\n")
@@ -806,7 +806,7 @@ func runC20(w *mon.W) {
 		b := []byte(doc)
 		first := strings.Index(doc, "<entry")
 		last := strings.LastIndex(doc, "</entry>") + len("</entry>")
-		kind := r.Intn(6)
+		kind := r.Intn(7)
 		what := ""
 		pos := first + r.Intn(last-first)
 		switch kind {
@@ -831,6 +831,28 @@ func runC20(w *mon.W) {
 			}
 			what = fmt.Sprintf("byte %q at %d (inside a date or number attribute) replaced by %q", b[pos], pos, nb)
 			b[pos] = nb
+		case 6: // a predefined entity turned into a name XML does not declare (HTML has it): &lt; -> &le;, &amp; -> &nbsp;
+			var spots [][2]int
+			for _, ent := range []string{"&lt;", "&gt;", "&amp;"} {
+				for from := first; ; {
+					i := strings.Index(doc[from:last], ent)
+					if i < 0 {
+						break
+					}
+					spots = append(spots, [2]int{from + i, len(ent)})
+					from += i + len(ent)
+				}
+			}
+			if len(spots) == 0 {
+				continue
+			}
+			sp := spots[r.Intn(len(spots))]
+			pos = sp[0]
+			repl := map[string][]string{"&lt;": {"&le;", "&lt", "&Lt;"}, "&gt;": {"&ge;", "&gg;"}, "&amp;": {"&nbsp;", "&alpha;", "&amp ", "&AMP;"}}[doc[pos:pos+sp[1]]]
+			nw := repl[r.Intn(len(repl))]
+			what = fmt.Sprintf("entity %s at %d replaced by %s", doc[pos:pos+sp[1]], pos, nw)
+			b = append(b[:pos:pos], append([]byte(nw), b[pos+sp[1]:]...)...)
+			pos++ // the damage lies inside the reference, after the '&'
 		case 0: // delete a '<' or '>'
 			for tries := 0; tries < 200 && b[pos] != '<' && b[pos] != '>'; tries++ {
 				pos = first + r.Intn(last-first)
@@ -882,7 +904,7 @@ func runC20(w *mon.W) {
 		}
 		c20DamageInTag = false
 		w.Add("corruptions", 1)
-		w.SetAdd("corruption_kinds", []string{"delete angle bracket", "insert angle bracket", "rename close tag", "flip byte", "flip byte", "damage a typed attribute"}[kind])
+		w.SetAdd("corruption_kinds", []string{"delete angle bracket", "insert angle bracket", "rename close tag", "flip byte", "flip byte", "damage a typed attribute", "rename an entity"}[kind])
 		w.End()
 	}
 }
